@@ -130,6 +130,7 @@ type Exec struct {
 	netClosed   int
 	tickers     map[*Object]*Timer
 	pools       map[*Object][]Value // sync.Pool model: LIFO reuse (the schedule that aliases most)
+	wrapped     map[*Object][]Iface // errors wrapped by fmt.Errorf("...%w...")
 
 	// statistics (cumulative)
 	Stats Stats
@@ -456,6 +457,7 @@ func (e *Exec) resetPath(prefix []Decision) {
 	e.now = nil
 	e.tickers = map[*Object]*Timer{}
 	e.pools = map[*Object][]Value{}
+	e.wrapped = map[*Object][]Iface{}
 	e.garbage = map[string]bool{}
 	e.foreignInit = nil
 	e.knownRaces = nil
